@@ -29,7 +29,7 @@ MANIFEST = dict(
 def fails_before(script):
     n = 0
     for x in script:
-        if x != "fail":
+        if x not in ("fail", "deadline", "wrapcancel"):
             break
         n += 1
     return n
@@ -106,7 +106,7 @@ Definition MISMATCH := Eval vm_compute in
 Print MISMATCH.
 """
 
-OUTC = {"ok": "AOk", "fail": "AFail", "panic": "APanic"}
+OUTC = {"ok": "AOk", "fail": "AFail", "panic": "APanic", "deadline": "AFail", "wrapcancel": "AFail"}
 
 
 def model_mismatches(rows):
@@ -196,7 +196,7 @@ def run(ctx):
         "evaluations": len(rows), "attempts_observed": sum(len(o["attempts"]) for o in rows),
         "distinct_nontrivial": len({json.dumps([o["via"], o["mode"], o["cancel"], o["spec"]["script"], o["spec"]["maxr"], o["spec"]["interval_ms"]])
                                     for o in rows if len(o["attempts"]) >= 2}),
-        "rule": "scripts {fail^k ok (k=0,1,2,3,5,8), always fail, fail^j panic (j=0,1,2,4)} x MaxRetries {-1,0,1,2,3,7} x interval {0,1,20 ms} x "
+        "rule": "scripts {fail^k ok (k=0,1,2,3,5,8), always fail, failures that are or wrap context.DeadlineExceeded / context.Canceled, fail^j panic (j=0,1,2,4)} x MaxRetries {-1,0,1,2,3,7} x interval {0,1,20 ms} x "
                 "{unbounded, pool, blocking} in child processes + cancellation before/during wait/during attempt + direct calls; "
                 "non-trivial = at least one retry happened",
         "samples": [{"spec": o["spec"], "mode": o["mode"], "attempts": len(o["attempts"])} for o in rows[5:8]],
